@@ -442,6 +442,7 @@ impl<'a> Driver<'a> {
     pub fn handshake(&mut self, s: usize, p: &Profile) -> bool {
         let (a, b) = (2 * s, 2 * s + 1);
         let mut guard = 0;
+        let mut redeliveries = 0;
         loop {
             guard += 1;
             if guard > 60 {
@@ -454,8 +455,34 @@ impl<'a> Driver<'a> {
             if sa.2 && sb.2 {
                 return true;
             }
-            // who writes next according to the nodes' own models
-            let (wr, rd) = if sa.1 && !sa.2 { (a, b) } else if sb.1 && !sb.2 { (b, a) } else { return false };
+            // a message in flight is delivered (again) before anybody writes; otherwise the party
+            // whose turn it is - according to its own model - writes
+            let pending = if !self.w.inbox[b].is_empty() && !sb.1 && !sb.2 {
+                Some((a, b))
+            } else if !self.w.inbox[a].is_empty() && !sa.1 && !sa.2 {
+                Some((b, a))
+            } else {
+                None
+            };
+            let deliver_only = pending.is_some();
+            let (wr, rd) = match pending {
+                Some(x) => x,
+                None => {
+                    if sa.1 && !sa.2 {
+                        (a, b)
+                    } else if sb.1 && !sb.2 {
+                        (b, a)
+                    } else {
+                        return false;
+                    }
+                },
+            };
+            if deliver_only {
+                redeliveries += 1;
+                if redeliveries > 6 {
+                    return false;
+                }
+            }
             let can_fault = self.hs_faults < p.max_hs_faults;
             // late PSKs: supply configured PSKs that are still missing, at a random moment
             for n in [wr, rd] {
@@ -522,6 +549,7 @@ impl<'a> Driver<'a> {
                 return false;
             }
             // ---- the write
+            if !deliver_only {
             let max = self.max_payload(wr);
             let big = p.big_payloads > 0 && self.rng.chance(p.big_payloads as u64, 1000);
             let plen = gen_plen(self.rng, max, big);
@@ -548,6 +576,7 @@ impl<'a> Driver<'a> {
                     return false;
                 }
                 continue;
+            }
             }
             // ---- the delivery
             if can_fault && p.hs_fail_read > 0 && self.rng.chance(p.hs_fail_read as u64, 1000) {
@@ -605,8 +634,9 @@ impl<'a> Driver<'a> {
                 }
                 continue;
             }
-            let out = if p.wild_buffers && self.rng.chance(1, 3) { Buf::Exact } else { Buf::Ample };
-            step!(self, Op::Read { node: rd as u8, src: Src::Next, mutation: Mutation::None, out, nonce: NonceSel::Auto });
+            let out = if p.wild_buffers && self.rng.chance(1, 2) { *self.rng.pick(&[Buf::Exact, Buf::Delta(1), Buf::Delta(8), Buf::Delta(15), Buf::Delta(16)]) } else { Buf::Ample };
+            // the genuine message stays in flight until it has been delivered successfully
+            step!(self, Op::Read { node: rd as u8, src: Src::Pick { k: 0, consume: false }, mutation: Mutation::None, out, nonce: NonceSel::Auto });
             if p.query > 0 && self.rng.chance(p.query as u64, 1000) {
                 step!(self, Op::Query { node: rd as u8 });
             }
@@ -662,9 +692,10 @@ impl<'a> Driver<'a> {
             } else if self.is_stateless(rcv) && self.rng.chance(1, 2) {
                 // stateless receivers may take messages in any order
                 let k = self.rng.below(qlen as u64) as u8;
-                step!(self, Op::Read { node: rcv as u8, src: Src::Pick { k, consume: true }, mutation: Mutation::None, out: Buf::Ample, nonce: NonceSel::Auto });
+                let out = if p.wild_buffers && self.rng.chance(1, 2) { *self.rng.pick(&[Buf::Exact, Buf::Delta(1), Buf::Delta(15), Buf::Delta(16)]) } else { Buf::Ample };
+                step!(self, Op::Read { node: rcv as u8, src: Src::Pick { k, consume: true }, mutation: Mutation::None, out, nonce: NonceSel::Auto });
             } else {
-                let out = if p.wild_buffers && self.rng.chance(1, 3) { Buf::Exact } else { Buf::Ample };
+                let out = if p.wild_buffers && self.rng.chance(1, 2) { *self.rng.pick(&[Buf::Exact, Buf::Delta(1), Buf::Delta(8), Buf::Delta(15), Buf::Delta(16)]) } else { Buf::Ample };
                 step!(self, Op::Read { node: rcv as u8, src: Src::Next, mutation: Mutation::None, out, nonce: NonceSel::Auto });
             }
             if p.query > 0 && self.rng.chance(p.query as u64, 1000) {
@@ -719,7 +750,9 @@ impl<'a> Driver<'a> {
                 // in-range values: around what the peer has sent so far
                 _ => self.rng.below(self.w.nodes[snd].written.len() as u64 + 2),
             };
-            step!(self, Op::SetRecvNonce { node: rcv as u8, v });
+            // now and then on the party that is (mostly) sending: its own receive direction
+            let target = if self.rng.chance(1, 4) { snd } else { rcv };
+            step!(self, Op::SetRecvNonce { node: target as u8, v });
         } else if hit!(p.tr_setsend) {
             let v = if self.rng.chance(1, 2) { u64::MAX - self.rng.below(4) } else { self.gen_nonce() };
             step!(self, Op::SetSendNonce { node: snd as u8, v });
@@ -786,7 +819,8 @@ impl<'a> Driver<'a> {
                     // read back the newest message under its own nonce (Auto) or a wrong one
                     let k = (self.w.inbox[rcv].len() - 1) as u8;
                     let nonce = if self.rng.chance(3, 4) { NonceSel::Auto } else { NonceSel::At(self.gen_nonce()) };
-                    step!(self, Op::Read { node: rcv as u8, src: Src::Pick { k, consume: self.rng.chance(1, 2) }, mutation: Mutation::None, out: Buf::Ample, nonce });
+                    let out = if p.wild_buffers && self.rng.chance(1, 2) { *self.rng.pick(&[Buf::Exact, Buf::Delta(1), Buf::Delta(15), Buf::Delta(16)]) } else { Buf::Ample };
+                    step!(self, Op::Read { node: rcv as u8, src: Src::Pick { k, consume: self.rng.chance(1, 2) }, mutation: Mutation::None, out, nonce });
                 }
             } else {
                 let k = self.rng.below(4) as u8;
@@ -839,6 +873,31 @@ impl<'a> Driver<'a> {
                     });
                     if let Some(pos) = pos {
                         step!(self, Op::Read { node: rcv as u8, src: Src::Hist { from: snd as u8, idx: pos as u16 }, mutation: Mutation::None, out: Buf::Ample, nonce: NonceSel::Auto });
+                    }
+                }
+            }
+            // explicit resynchronisation (the lossy-transport use of set_receiving_nonce): jump
+            // back to an earlier message of the sender and deliver exactly that one
+            if !self.is_stateless(rcv) && self.rng.chance(1, 2) {
+                let cands: Vec<(usize, u64)> = self.w.nodes[snd]
+                    .written
+                    .iter()
+                    .enumerate()
+                    .filter_map(|(pos, &h)| match self.w.history[h].phase {
+                        crate::world::Phase::Tr { nonce } => Some((pos, nonce)),
+                        _ => None,
+                    })
+                    .collect();
+                if !cands.is_empty() {
+                    let (pos, nonce) = cands[self.rng.usize_below(cands.len())];
+                    step!(self, Op::SetRecvNonce { node: rcv as u8, v: nonce });
+                    step!(self, Op::Read { node: rcv as u8, src: Src::Hist { from: snd as u8, idx: pos as u16 }, mutation: Mutation::None, out: Buf::Ample, nonce: NonceSel::Auto });
+                    // and forward again to where the sender is
+                    let sn = self.w.nodes[snd].trm.as_ref().map(|t| t.nonces[t.send_dir()]);
+                    if let Some(sn) = sn {
+                        if !self.is_stateless(snd) {
+                            step!(self, Op::SetRecvNonce { node: rcv as u8, v: sn });
+                        }
                     }
                 }
             }
